@@ -56,9 +56,9 @@ func fromBE8(b []byte) int64 {
 
 type Out struct {
 	path string
-	f *os.File
-	w *bufio.Writer
-	n int
+	f    *os.File
+	w    *bufio.Writer
+	n    int
 }
 
 func newOut(path string) *Out {
